@@ -156,7 +156,16 @@ def run(chk, prog):
     CG = P("choice_gradients")
     seeds = ("call", ("global", "jax.tree_util.tree_unflatten"), (("call", ("global", "jax.tree_util.tree_structure"), (CG,), ()), ("call", ("global", "jax.numpy.arange"), (("call", ("global", "len"), (("call", ("global", "jax.tree_util.tree_leaves"), (CG,), ()),), ()),), ())), ())
     want_m = ("treemap", ("call", ("global", mm_.dotted + ".normal_sample"), (("call", ("global", "jax.random.fold_in"), (P("key"), ("leaf", seeds)), ()), ("attr", ("leaf", CG), "shape")), ()), (CG, seeds))
-    okm_ = is_t(rs_.ret, "tuple") and len(rs_.ret[1]) == 2 and rs_.ret[1][0] == want_m and is_call(rs_.ret[1][1], "assess_momenta") and rs_.ret[1][1][2] == (want_m,)
+    # second spelling: flatten, one draw per (position, leaf) of the flattened tree, unflatten with the same tree structure
+    def _flat_form(t):
+        TU, TF = ("global", "jax.tree_util.tree_unflatten"), ("call", ("global", "jax.tree_util.tree_flatten"), (CG,), ())
+        leaves_ok = lambda x: x in (mk_proj(TF, 0), ("call", ("global", "jax.tree_util.tree_leaves"), (CG,), ()))
+        tdef_ok = lambda x: x in (mk_proj(TF, 1), ("call", ("global", "jax.tree_util.tree_structure"), (CG,), ()))
+        if not (is_t(t, "call") and t[1] == TU and len(t[2]) == 2 and tdef_ok(t[2][0]) and is_t(t[2][1], "fam") and is_t(t[2][1][1], "enumerate") and leaves_ok(t[2][1][1][1])):
+            return False
+        lv = t[2][1][1][1]
+        return t[2][1][2] == ("call", ("global", mm_.dotted + ".normal_sample"), (("call", ("global", "jax.random.fold_in"), (P("key"), ("enumidx", lv)), ()), ("attr", ("elem", lv), "shape")), ())
+    okm_ = is_t(rs_.ret, "tuple") and len(rs_.ret[1]) == 2 and (rs_.ret[1][0] == want_m or _flat_form(rs_.ret[1][0])) and is_call(rs_.ret[1][1], "assess_momenta") and rs_.ret[1][1][2] == (rs_.ret[1][0],)
     chk.require(okm_, "KEY-LOOP", "sample_momenta", "independent momentum per selected leaf", derived=show(rs_.ret)[:300], expected="tree_map(normal_sample(fold_in(key, i_leaf), leaf.shape)) with DISTINCT seeds arange(#leaves), and the score of those momenta", where=f"{mm_.rel}:{smf.lineno}")
     _, amf = prog.func("assess_momenta", MOD)
     eva = Evaluator(prog)
